@@ -12,15 +12,36 @@ Import ListNotations.
 Import Router RouterEpic.
 Local Open Scope N_scope.
 
-(** At every hop but the penultimate and the last one an EPIC packet is processed exactly like
+(** At every hop field but the penultimate and the last one an EPIC packet is processed exactly like
     its embedded SCION path: same disposition, same egress, same rewritten path, same slow-path
     request ([epic_view] = the identity up to the constant offset of the SCMP pointers that
     designate a path field). *)
 Theorem C13_other_hops : forall fullq emacq c now ing ep p,
-  is_penultimate p = false -> is_last_hop p = false ->
+  epic_checked c p = false ->
   process_epic fullq emacq c now ing ep p = epic_view (process_scion (macq fullq) c now ing p).
 Proof. exact process_epic_other. Qed.
 Print Assumptions C13_other_hops.
+
+(** "At the penultimate / last hop" is meant by hop FIELD, not by the pointer of the received
+    packet: the EPIC checks are applied exactly when the hop field the router verifies last
+    (the current one, or the first one of the next segment when it crosses over) is the
+    penultimate or the last hop field of the path ... *)
+Theorem C13_checked_iff_penultimate_or_last_hop_field : forall c p,
+  epic_checked c p =
+  (verified_index c p + 2 =? num_hops p) || (verified_index c p + 1 =? num_hops p).
+Proof. exact epic_checked_iff. Qed.
+Print Assumptions C13_checked_iff_penultimate_or_last_hop_field.
+
+(** ... and that hop field is the one whose full MAC keys the EPIC MAC. *)
+Theorem C13_verified_hop_field : forall full c now ing p i h,
+  last_verified (fullt full) c now ing p = Some (i, h) ->
+  nthN (p_hops p) (verified_index c p) = Some h /\ h_mac h = firstn 6 (auth_of full i h).
+Proof.
+  intros full c now ing p i h L. split.
+  - eapply last_verified_index; eassumption.
+  - destruct (last_verified_valid _ _ _ _ _ _ _ L) as [MV _]. exact MV.
+Qed.
+Print Assumptions C13_verified_hop_field.
 
 (** At any hop: an EPIC packet is forwarded only if its embedded SCION path is, with the same
     egress and the same rewritten path (so everything proved about [process_scion] carries
@@ -36,7 +57,7 @@ Print Assumptions C13_accepts_only_what_scion_accepts.
       tsSender = Timestamp * 1 s + (PktID.Timestamp + 1) * 21 us,
     satisfies  now - (2 s + 1 s) <= tsSender <= now + 1 s. *)
 Theorem C13_fresh : forall full emac c now ing ep p e out d,
-  is_penultimate p || is_last_hop p = true ->
+  epic_checked c p = true ->
   process_epic (fullt full) (emact emac) c now ing ep p = Forward e out d ->
   exists fi0, nthN (p_infos p) 0 = Some fi0 /\
     ts_sender (i_ts fi0) (e_ts ep) <= now + MaxClockSkewNs /\
@@ -59,7 +80,7 @@ Print Assumptions C13_fresh.
 
 (** Contrapositive with the numbers spelled out. *)
 Theorem C13_stale_or_future_never_forwarded : forall full emac c now ing ep p fi0,
-  is_penultimate p || is_last_hop p = true ->
+  epic_checked c p = true ->
   nthN (p_infos p) 0 = Some fi0 ->
   now + 1000000000 < i_ts fi0 * 1000000000 + (e_ts ep + 1) * 21000 \/
   i_ts fi0 * 1000000000 + (e_ts ep + 1) * 21000 + 3000000000 < now ->
@@ -78,7 +99,7 @@ Print Assumptions C13_stale_or_future_never_forwarded.
     prefix), of the block built from the first info field's timestamp, the packet identifier,
     SrcIA, the source host address (length bits and bytes) and PayloadLen. *)
 Theorem C13_hvf : forall full emac c now ing ep p e out d,
-  is_penultimate p || is_last_hop p = true ->
+  epic_checked c p = true ->
   process_epic (fullt full) (emact emac) c now ing ep p = Forward e out d ->
   exists i h fi0,
     last_verified (fullt full) c now ing p = Some (i, h) /\
@@ -131,7 +152,7 @@ Definition wf_fields (ep : epic) (p : pkt) (ts0 : N) : Prop :=
   src_len_ok (p_src_type p) (p_src_raw p).
 
 Theorem C13_tamper : forall full emac c now ing ep p e out d c' now' ing' ep' p' e' out' d' i h i' h' f f',
-  is_penultimate p || is_last_hop p = true -> is_penultimate p' || is_last_hop p' = true ->
+  epic_checked c p = true -> epic_checked c' p' = true ->
   process_epic (fullt full) (emact emac) c now ing ep p = Forward e out d ->
   process_epic (fullt full) (emact emac) c' now' ing' ep' p' = Forward e' out' d' ->
   last_verified (fullt full) c now ing p = Some (i, h) ->
@@ -218,4 +239,35 @@ Example C13_example :
   (* first of four hops: no EPIC check at all *)
   (match run ex_now InInt (mkEpic 0 0 [0;0;0;0] [0;0;0;0]) ex_first with
    | Forward 2 _ None => True | _ => False end).
+Proof. vm_compute. repeat split. Qed.
+
+(** Non-vacuity of the cross-over case: an up segment and a down segment of two hop fields
+    each meet in AS 100; the router receives the packet on the last hop field of the up segment
+    (pointer 1 of 4), crosses over to hop field 2 = the penultimate one, and only forwards
+    the packet if the PHVF is the EPIC MAC under that hop field's full MAC. *)
+Definition ex_full2 (sid ts e i g : N) : list N :=
+  [e; i mod 256; g mod 256; ts mod 256; 1; 2; 3; 4; 5; 6; 7; 8; 9; 10; 11; 12].
+Definition ex_cfg2 : cfg :=
+  mkCfg 100 [mkIf 3 External Child 200 true 3; mkIf 2 External Child 300 true 2] []
+        [10;0;0;1] 1024 65535 false.
+Definition ex_xover_pkt : pkt :=
+  mkPkt 300 200 0 0 [1;1;1;1] [2;2;2;2] 8 8 (Some 9) 0 1 2 2 0 0
+        [mkInfo false false 5 1000 0; mkInfo false true 77 1000 0]
+        [mkHop false false 63 9 8 [0;0;0;0;0;0] 0;
+         mkHop false false 63 0 3 (firstn 6 (ex_full2 0 1000 63 0 3)) 0;
+         mkHop false false 63 0 2 (firstn 6 (ex_full2 0 1000 63 0 2)) 0;
+         mkHop false false 63 4 0 [0;0;0;0;0;0] 0].
+Definition ex_phvf : list N :=
+  ex_emac (ex_full2 77 1000 63 0 2) (mac_input 0 1000 47619 77 200 [2;2;2;2] 8).
+
+Example C13_example_crossover :
+  epic_checked ex_cfg2 ex_xover_pkt = true /\ is_penultimate ex_xover_pkt = false /\
+  verified_index ex_cfg2 ex_xover_pkt = 2 /\
+  (match process_epic (fullt ex_full2) (emact ex_emac) ex_cfg2 ex_now (InExt 3)
+                      (mkEpic 47619 77 ex_phvf [0;0;0;0]) ex_xover_pkt with
+   | Forward 2 out None => p_curr_hf out = 3 | _ => False end) /\
+  process_epic (fullt ex_full2) (emact ex_emac) ex_cfg2 ex_now (InExt 3)
+               (mkEpic 47619 77 [1;2;3;4] [0;0;0;0]) ex_xover_pkt = Discard /\
+  process_epic (fullt ex_full2) (emact ex_emac) ex_cfg2 (ex_now + 3500000000) (InExt 3)
+               (mkEpic 47619 77 ex_phvf [0;0;0;0]) ex_xover_pkt = Discard.
 Proof. vm_compute. repeat split. Qed.
